@@ -61,7 +61,7 @@ func init() {
 func argsStr(args []*variants.Variant) string {
 	var p []string
 	for _, a := range args {
-		p = append(p, encVariant(a))
+		p = append(p, encArg(a))
 	}
 	return strings.Join(p, " ")
 }
@@ -204,6 +204,19 @@ func runFnCase(c *Ctx, m string, name string, args []*variants.Variant) {
 			}
 		}
 	}
+	for _, a := range args {
+		if a.Type() == variants.DateTime {
+			if _, off := a.AsDateTime().Zone(); off != 0 {
+				if canon == "DayOfWeek" && len(args) == 1 {
+					if want := fmt.Sprintf("ok i%d", int(a.AsDateTime().Weekday())); impl != want {
+						c.fail(Failure{Kind: "oracle", Op: op, Impl: impl, Note: "DayOfWeek must be the week day of the value in its own zone: " + want})
+					}
+				}
+				c.count("fn-zoned-argument(not compared with the model)")
+				return
+			}
+		}
+	}
 	c.model(op, impl, "model-host")
 }
 
@@ -221,15 +234,15 @@ func randCaseName(c *Ctx, s string) string {
 
 func propC08(c *Ctx) {
 	pool := valuePool()
-	// calendar functions (DayOfWeek) read a date-time in its own zone; the model has instants only, so the
-	// function stream keeps to zone offset 0 (the zone variants of the pool are for the operators, C06)
-	var utcTimes []*variants.Variant
+	// calendar functions (DayOfWeek) read a date-time in its own zone; the model has instants only, so calls
+	// with a zoned argument are checked against the direct oracle (the week day in the value's own zone)
+	// and not compared with the model (runFnCase)
+	pool["time"] = append(pool["time"], vTime(time.Date(2020, 1, 1, 23, 30, 0, 0, time.FixedZone("EST", -5*3600))),
+		vTime(time.Date(2021, 3, 8, 1, 15, 0, 0, time.FixedZone("JST", 9*3600))))
 	for _, t := range pool["time"] {
-		if _, off := t.AsDateTime().Zone(); off == 0 {
-			utcTimes = append(utcTimes, t)
-		}
+		runFnCase(c, "u", "DayOfWeek", []*variants.Variant{t})
+		runFnCase(c, "s", "dayofweek", []*variants.Variant{t})
 	}
-	pool["time"] = utcTimes
 	var all []*variants.Variant
 	for _, tn := range typeNames {
 		all = append(all, pool[tn]...)
